@@ -5,6 +5,7 @@ import (
 	"go/constant"
 	"go/token"
 	"go/types"
+	"strings"
 
 	"verif/engine/core"
 )
@@ -21,6 +22,7 @@ func init() {
 		},
 		Run: runC29,
 		Controls: []Control{
+			{Name: "source-kept-on-graceful-stop", File: "risclient/risclient.go", Old: "\tdefer r.processDownEvent()\n\n\tfor {\n\t\tif r.stopped() {\n\t\t\treturn nil\n\t\t}\n", New: "\tfor {\n\t\tif r.stopped() {\n\t\t\treturn nil\n\t\t}\n\t\tdefer r.processDownEvent()\n", Expect: "source-dropped-when-stream-ends"},
 			{Name: "remove-source-truncates-behind-the-gap", File: "routingtable/mergedlocrib/routecontainer.go", Old: "\trc.sources[i] = rc.sources[len(rc.sources)-1]\n\trc.sources = rc.sources[:len(rc.sources)-1]\n", New: "\trc.sources = append(rc.sources[:i], rc.sources[len(rc.sources)-1])\n", Expect: "source-removed-is-the-one-found"},
 			{Name: "refactor-remove-source-by-splice", Silent: true, File: "routingtable/mergedlocrib/routecontainer.go", Old: "\trc.sources[i] = rc.sources[len(rc.sources)-1]\n\trc.sources = rc.sources[:len(rc.sources)-1]\n", New: "\trc.sources = append(rc.sources[:i], rc.sources[i+1:]...)\n"},
 			{Name: "addsource-unconditional", File: "routingtable/mergedlocrib/routecontainer.go", Old: "\tif rc.getSourceIndex(src) >= 0 {\n\t\treturn\n\t}\n", New: "", Expect: "source-list-is-a-set"},
@@ -64,6 +66,7 @@ func impliesNegative(op token.Token, k int64, truth bool) bool {
 
 func runC29(c *core.Ctx) {
 	p := c.P
+	sourceDroppedWhenStreamEnds(c)
 	const pkg = "routingtable/mergedlocrib"
 	src := p.Field(pkg, "routeContainer", "sources")
 	add := c.MustFunc(pkg + ".(*routeContainer).addSource")
@@ -329,4 +332,40 @@ func runC29(c *core.Ctx) {
 		}
 		c.Check(locked, "routes-under-lock", f.Name(), f.Decl.Pos(), "exported method touches the route map before taking routesMu")
 	}
+}
+
+// sourceDroppedWhenStreamEnds: the RIS client feeds one source into the merged table.  However its service loop ends —
+// stream error or a requested stop — the routes of that source must leave the merged table: every exit of the function
+// that reads the stream passes (a deferred or direct call of) the function that drops all routes of the source.
+func sourceDroppedWhenStreamEnds(c *core.Ctx) {
+	const rule = "source-dropped-when-stream-ends"
+	p := c.P
+	const rc = "risclient"
+	n := 0
+	for _, f := range p.FuncsIn(rc) {
+		if f.Decl.Body == nil || isTestFn(p, f) {
+			continue
+		}
+		// reads the ObserveRIB stream
+		reads := false
+		ast.Inspect(f.Decl.Body, func(x ast.Node) bool {
+			if call, ok := x.(*ast.CallExpr); ok {
+				if se, ok := call.Fun.(*ast.SelectorExpr); ok && se.Sel.Name == "Recv" {
+					if t := f.Pkg.TypesInfo.TypeOf(se.X); t != nil && strings.Contains(t.String(), "ObserveRIB") {
+						reads = true
+					}
+				}
+			}
+			return true
+		})
+		if !reads {
+			continue
+		}
+		n++
+		c.Analysed(f)
+		drops := func(o *types.Func) bool { return o.Name() == "DropAllBySrc" }
+		c.Check(p.AlwaysCalls(f, drops), rule, f.Name()+" drops the source on every exit", f.Decl.Pos(),
+			"the service loop of the RIS client can end (stop requested, stream error) without dropping this source's routes from the merged table: routes no upstream source advertises any more stay present")
+	}
+	c.Check(n >= 1, rule, "stream readers found", 0, "no function reading the ObserveRIB stream found")
 }
